@@ -350,8 +350,11 @@ struct Walk {
         root += " S=" + SAFE(kids<nix::Section>((size_t)file.sectionCount(), [&](size_t i) { return file.getSection(i); }, ss));
         for (auto &b : bs) block(b);
         for (auto &s : ss) section(s, "F");
+        // known entities by ordinal; entities the driver does not know (half-built, re-identified) after them, by text
         std::stable_sort(lines.begin(), lines.end(), [](const std::pair<long, std::string> &x, const std::pair<long, std::string> &y) {
-            return std::min(x.first, 1000000000L) < std::min(y.first, 1000000000L); });
+            long a = std::min(x.first, 1000000000L), b = std::min(y.first, 1000000000L);
+            if (a != b) return a < b;
+            return a == 1000000000L && x.second < y.second; });
         std::string out = root;
         for (auto &l : lines) out += " | " + l.second;
         return out;
